@@ -40,3 +40,29 @@ def c09(ck):
 
 def c10(ck):
     _run(ck, "C10", "reads", "a read returns the reading core's latest completed write for bytes only it writes")
+
+
+def replay(ck, path, field):
+    """Re-runs the rig case of a replay file on the real cache controllers of the three variants."""
+    import json, os
+    from .core import Lock, WORK
+    payload = json.load(open(path))
+    with Lock():
+        ck.build_harness()
+    d = f"{WORK}/streams/{ck.pid}"
+    os.makedirs(d, exist_ok=True)
+    f = f"{d}/rig-replay.txt"
+    open(f, "w").write(payload["rig_case"] + "\n" + str(payload["cores"]) + "\n")
+    os.environ["VERIF_CASE_FILE"] = f
+    _, go, _ = ck.run_stream("c09-rig-file", driver=False)
+    n = 0
+    for part in go[0].split(" ", 2)[2].split(" @@ "):
+        kv = dict(x.split("=", 1) for x in part.split())
+        bad = kv["status"] != "ok" or kv[field] not in ("ok", "skip")
+        print(f"  {kv['variant']}/{kv['cores']} cores: status={kv['status']} reads={kv['reads']} final={kv['final']}" + ("   <-- violates" if bad else ""))
+        n += bad
+    if n:
+        ck.violation(dict(payload, kind="replay"))
+    ck.cov["evaluations"] = 3
+    ck.cov["distinct_nontrivial"] = 2
+    ck.finish("exploration")
